@@ -222,7 +222,8 @@ def outliers_strategy():
 
 def components_strategy():
   return _case(st.sampled_from(
-      [['halfrank']] * 3 + [['log']] * 2 + [['infeasible']] * 2 +
+      [['halfrank']] * 3 + [['log'], ['log', 1.1], ['log', 4.0]] +
+      [['infeasible']] * 2 +
       [['detect']] * 2 + [['zscore'], ['normalize'], ['normalize'],
                           ['gauss', False], ['gauss', True]]), x64=True)
 
@@ -253,7 +254,9 @@ def _build(ow, spec):
   if k == 'halfrank':
     return ow.HalfRankComponent()
   if k == 'log':
-    return ow.LogWarperComponent()
+    # a public constructor argument: any offset > 0
+    return (ow.LogWarperComponent(offset=spec[1]) if len(spec) > 1
+            else ow.LogWarperComponent())
   if k == 'infeasible':
     return ow.InfeasibleWarperComponent()
   if k == 'detect':
@@ -594,6 +597,19 @@ def _roundtrip(out, case, kind, tr, y, w, fin, lost, warper, med):
     return
   if arg.tobytes() != snap:
     out.violate('mutated/%s/unwarp_input' % kind, 'y=%r' % (case['y'],))
+  # a fitted warper un-warps many arrays (every posterior sample of a
+  # prediction): the same input gives the same output again
+  try:
+    u_again = np.asarray(warper.unwarp(arg.copy()), dtype=np.float64)
+    if not np.array_equal(u_again, np.asarray(u, dtype=np.float64),
+                          equal_nan=True):
+      out.violate('roundtrip/%s/second_unwarp_differs' % kind,
+                  'unwarp(w) = %r, unwarp(w) again = %r | y=%r' % (
+                      np.asarray(u).ravel().tolist()[:6],
+                      u_again.ravel().tolist()[:6], case['y']))
+  except Exception as e:  # pylint: disable=broad-except
+    out.violate('roundtrip/%s/second_unwarp_exception_%s' % (
+        kind, type(e).__name__), repr(e))
   u = np.asarray(u, dtype=np.float64)
   if u.shape != arg.shape:
     out.violate('shape/%s/unwarp' % kind, '%r -> %r' % (arg.shape, u.shape))
